@@ -26,6 +26,7 @@ import (
 	"strconv"
 	"strings"
 	"sync"
+	"sync/atomic"
 	"time"
 
 	"github.com/safing/portbase/api"
@@ -59,6 +60,8 @@ type doneEv struct {
 type world struct {
 	handler   http.Handler
 	done      chan doneEv
+	cleanup   chan struct{}
+	wedged    atomic.Bool // an operation did not return: the server is hung, nothing else can be trusted
 	offModule *modules.Module
 	db        *database.Interface
 	tcp       *httptest.Server
@@ -167,6 +170,12 @@ func (w *world) sink(point string, args ...any) {
 		default:
 		}
 	}
+	if point == "apiKeyCleanup:done" {
+		select {
+		case w.cleanup <- struct{}{}:
+		default:
+		}
+	}
 }
 
 func (w *world) waitDone() (doneEv, bool) {
@@ -182,6 +191,7 @@ func (w *world) drain() {
 	for {
 		select {
 		case <-w.done:
+		case <-w.cleanup:
 		default:
 			return
 		}
@@ -189,7 +199,7 @@ func (w *world) drain() {
 }
 
 func setup() {
-	w := &world{done: make(chan doneEv, 4096), authSet: true}
+	w := &world{done: make(chan doneEv, 4096), cleanup: make(chan struct{}, 4096), authSet: true}
 	defer func() { api.VerifSetAuthenticatorSet(false); w.authSet = false }()
 	theWorld = w
 	dir := os.Getenv("VERIF_SCRATCH_DIR")
@@ -308,19 +318,39 @@ func newExec(r *hxlib.Run) hxlib.Exec {
 // setOption changes a config option and waits for the resulting key import(s).
 // Returns (size after first import, expired seen, size at the end, ok).
 func (e *exec) setOption(key string, val any) (int, bool, int, bool) {
+	if e.w.wedged.Load() {
+		return 0, false, 0, false
+	}
 	e.w.drain()
-	if err := config.SetConfigOption(key, val); err != nil {
+	errc := make(chan error, 1)
+	go func() { errc <- config.SetConfigOption(key, val) }()
+	select {
+	case err := <-errc:
+		if err != nil {
+			return 0, false, 0, false
+		}
+	case <-time.After(waitTimeout):
+		e.w.wedged.Store(true)
 		return 0, false, 0, false
 	}
 	ev, ok := e.w.waitDone()
 	if !ok {
+		e.w.wedged.Store(true)
 		return 0, false, 0, false
 	}
 	last := ev.n
 	if ev.hasExpired {
-		// the cleanup microtask sets the option to the valid keys: one more import
+		// the cleanup microtask sets the option to the valid keys: one more import, then it returns
 		ev2, ok := e.w.waitDone()
+		if ok {
+			select {
+			case <-e.w.cleanup:
+			case <-time.After(waitTimeout):
+				ok = false
+			}
+		}
 		if !ok {
+			e.w.wedged.Store(true)
 			return 0, false, 0, false
 		}
 		if ev2.hasExpired {
@@ -373,7 +403,7 @@ func (e *exec) hasExpiries() bool {
 
 func showKeys(n1 int, exp bool, n2 int, ok bool) string {
 	if !ok {
-		return "HANG config change did not reach updateAPIKeys"
+		return "HANG config change did not complete (SetConfigOption / updateAPIKeys / api key cleanup)"
 	}
 	x := "0"
 	if exp {
@@ -431,6 +461,9 @@ func (e *exec) Do(line string) string {
 	f := strings.Fields(line)
 	if len(f) == 0 {
 		return "bad-op"
+	}
+	if e.w.wedged.Load() {
+		return "HANG-BEFORE the server was wedged by an earlier operation"
 	}
 	switch f[0] {
 	case "keys":
@@ -543,7 +576,10 @@ var sessPlaceholder = regexp.MustCompile(`@S([0-9]+)@`)
 
 func (e *exec) substCookies(raw string) string {
 	return sessPlaceholder.ReplaceAllStringFunc(raw, func(m string) string {
-		n, _ := strconv.Atoi(m[2 : len(m)-1])
+		n, err := strconv.Atoi(m[2 : len(m)-1])
+		if err != nil || n >= 100000 {
+			return m
+		}
 		return e.cookieValue(n)
 	})
 }
@@ -560,6 +596,7 @@ func (e *exec) serve(r *http.Request) (*httptest.ResponseRecorder, bool) {
 	case <-done:
 		return rec, false
 	case <-time.After(waitTimeout):
+		e.w.wedged.Store(true)
 		return rec, true
 	}
 }
@@ -909,6 +946,7 @@ func (e *exec) dbRequest(method, key string) (int, []byte) {
 		}
 		return 999, nil
 	case <-time.After(waitTimeout):
+		e.w.wedged.Store(true)
 		return -1, nil
 	}
 }
